@@ -51,3 +51,10 @@ def c18_universes():
     out["c18-name-8"] = ("name", consts(MaxN=8, MaxP=1, CheckFits=False, AllowReject=True, PoolS="C18NmS", PoolP="C18NmP", PoolO="C18NmO"))
     out["c18-name-8np"] = ("name", consts(MaxN=8, MaxP=0, CheckFits=False, AllowReject=True, PoolS="C18NmS", PoolP="C18NmP", PoolO="C18NmO"))
     return out
+
+# C20: rejections at every slot, for each cause
+C20 = {
+    "c20-triples": consts(MaxP=2, MaxD=0, PType=1, AllowReject=True, PoolS="RejS", PoolP="RejP", PoolO="RejO"),
+    "c20-quads":   consts(MaxP=2, MaxD=0, PType=2, AllowReject=True, PoolS="RejS", PoolP="RejP", PoolO="RejO", PoolG="RejG"),
+    "c20-small":   consts(MaxP=1, MaxD=1, PType=1, AllowReject=True, CheckFits=False, PoolS="RejS", PoolP="RejP", PoolO="RejO"),
+}
